@@ -60,6 +60,10 @@ func c13Cells() []junkCell {
 			cells = append(cells, junkCell{Kind: k, Placement: p, Bad: true})
 		}
 	}
+	// a workload document that fails schema conversion and carries the kind, namespace and name of a VALID workload of the input
+	for _, p := range []string{"file", "first", "middle", "last"} {
+		cells = append(cells, junkCell{Kind: "samename-badworkload", Placement: p, Bad: true})
+	}
 	for _, k := range []string{"syntax", "syntax2", "nonmanifest", "binary", "danglingsymlink", "symlinkloop"} {
 		cells = append(cells, junkCell{Kind: k, Placement: "file", Bad: true})
 	}
@@ -78,7 +82,7 @@ func init() {
 	run.Register(&run.Check{
 		ID:    "C13",
 		Level: "fault_enumeration",
-		Rule: "fault enumeration: every (junk kind, placement) cell - 9 irrelevant kinds (a Kustomization and a kubeconfig, which carry no metadata.name; two custom resources whose kind is spelled like a used one and which are named like a real Service / Route of the input) and 5 schema-conversion failures x {own file, first/middle/last document of a valid file}, 6 unreadable/malformed file kinds (two syntax errors, HTML, binary, dangling symlink, symlink loop), 5 harmless files (empty .yaml, .txt, .md, .png, non-manifest .json), a fatal duplicate-NetworkPolicy conflict alone and next to a severe document recorded before / after it, a fatal invalid CIDR next to a severe document, a Service whose selector is no legal label selector (fatal: the ingress analysis cannot be built) - is applied to sampled valid worlds (case index mod number of cells picks the cell); " +
+		Rule: "fault enumeration: every (junk kind, placement) cell - 9 irrelevant kinds (a Kustomization and a kubeconfig, which carry no metadata.name; two custom resources whose kind is spelled like a used one and which are named like a real Service / Route of the input) and 6 schema-conversion failures (one of them carrying the kind, namespace and name of a valid workload of the input) x {own file, first/middle/last document of a valid file}, 6 unreadable/malformed file kinds (two syntax errors, HTML, binary, dangling symlink, symlink loop), 5 harmless files (empty .yaml, .txt, .md, .png, non-manifest .json), a fatal duplicate-NetworkPolicy conflict alone and next to a severe document recorded before / after it, a fatal invalid CIDR next to a severe document, a Service whose selector is no legal label selector (fatal: the ingress analysis cannot be built) - is applied to sampled valid worlds (case index mod number of cells picks the cell); " +
 			"oracles over paired real runs: list(valid+junk) = list(valid) point-wise, severe(with) - severe(without) >= injected bad items for list AND for diff with the junk in dir1, in dir2 and different junk on both sides, stop-on-error + severe => empty result or error on ConnlistFromDirPath, ConnlistFromResourceInfos and diff, fatal => error and no result for list and diff, diff(valid+junk, valid) has no added/removed/changed entry; " +
 			"non-trivial = the valid twin's report is non-empty and the cell injects a bad or fatal item; distinct = world hash + cell",
 		Assumptions:       []string{"a syntax error ends the decoding of its own file, so broken content is injected as whole files only", "an empty file and files without manifest extension are neither errors nor inputs"},
@@ -148,9 +152,16 @@ func runC13(c *run.Ctx) {
 		_ = os.WriteFile(filepath.Join(junk, fatName), []byte(fatalY), 0o644)
 		junkName = fatName
 		injected = 1
-	case junkDocs[cell.Kind] != "" || cell.Kind == "dupnetpol" || strings.HasPrefix(cell.Kind, "lookalike"):
+	case junkDocs[cell.Kind] != "" || cell.Kind == "dupnetpol" || cell.Kind == "samename-badworkload" || strings.HasPrefix(cell.Kind, "lookalike"):
 		y := junkDocs[cell.Kind]
 		switch cell.Kind {
+		case "samename-badworkload":
+			// the manifest of one of the input's own workloads with its spec replaced by a scalar: same kind, namespace and name, but it
+			// cannot be converted; wherever it is read - before or after the good one - it is reported and the good one stays
+			y = world.WorkloadDocs(&w.Workloads[g.Intn(len(w.Workloads))])[0].YAML
+			if i := strings.Index(y, "\nspec:"); i >= 0 {
+				y = y[:i] + "\nspec: \"to be filled in\"\n"
+			}
 		case "lookalike-service": // e.g. a Knative Service next to the core Service of the same name
 			name, ns := "svc0", w.Workloads[0].Ns
 			if len(w.Services) > 0 {
